@@ -80,6 +80,9 @@ func (s *Struct) Assign(gen Generator, ctx *MethodContext, assignTo *AssignTo, s
 				return nil, err.Lift(lift...)
 			}
 			if shouldCheckAgainstZero(ctx, nextSource, targetFieldType, assignTo.Update, false) {
+				if err := zeroComparable(nextSource); err != nil {
+					return nil, err.Lift(lift...)
+				}
 				stmt = append(stmt, jen.If(nextID.Code.Clone().Op("!=").Add(xtype.ZeroValue(nextSource.T))).Block(fieldStmt...))
 			} else {
 				stmt = append(stmt, fieldStmt...)
@@ -123,6 +126,9 @@ func (s *Struct) Assign(gen Generator, ctx *MethodContext, assignTo *AssignTo, s
 
 			// a function without source parameter has nothing that could be compared against its zero value
 			if functionCallSourceType != nil && shouldCheckAgainstZero(ctx, functionCallSourceType, targetFieldType, assignTo.Update, true) {
+				if err := zeroComparable(functionCallSourceType); err != nil {
+					return nil, err.Lift(sourceLift...)
+				}
 				stmt = append(stmt, jen.If(functionCallSourceID.Code.Clone().Op("!=").Add(xtype.ZeroValue(functionCallSourceType.T))).Block(callStmt...))
 			} else {
 				stmt = append(stmt, callStmt...)
@@ -142,6 +148,15 @@ func (s *Struct) Assign(gen Generator, ctx *MethodContext, assignTo *AssignTo, s
 	}
 
 	return stmt, nil
+}
+
+// zeroComparable reports an error for a type whose values cannot be compared with their zero value using !=.
+func zeroComparable(t *xtype.Type) *Error {
+	if t.Struct && !types.Comparable(t.T) {
+		return NewError(fmt.Sprintf(`Cannot check %s against its zero value: the struct is not comparable.
+Disable update:ignoreZeroValueField:struct for this method or ignore the field.`, t.String))
+	}
+	return nil
 }
 
 func shouldCheckAgainstZero(ctx *MethodContext, s, t *xtype.Type, isUpdate, call bool) bool {
